@@ -201,9 +201,6 @@ class CHECK(Check):
                 yield self._table_case(rng)
             else:
                 c = next(gen)
-                if len(c["y"]) == 1 and "ndarray" in (c["sf_container"], c["cf_container"]):
-                    c["sf_container"] = "dict"           # finding F9 (C01) is not this property's business
-                    c["cf_container"] = "dict" if c["cf"] else None
                 c["kind"] = "data"
                 yield c
 
@@ -226,9 +223,6 @@ class CHECK(Check):
         if case["kind"] == "data":
             for c in self.c01.shrink(case):
                 c["kind"] = "data"
-                if len(c["y"]) == 1 and "ndarray" in (c["sf_container"], c["cf_container"]):
-                    c["sf_container"] = "dict"       # do not walk into finding F9 (C01) while shrinking
-                    c["cf_container"] = "dict" if c["cf"] else None
                 yield c
             return
         g = case["groups"]
